@@ -328,6 +328,28 @@ func (ts *TermStore) Eq(a, b *Term) *Term {
 			return ts.tFals
 		}
 	}
+	// sum/product of small non-negative quantities == 0  <=>  every summand == 0
+	// (no wrap-around is possible when the upper bound stays below 2^63)
+	if a.S.K == KBV && a.S.W == 64 {
+		if a.IsConst() && a.C == 0 {
+			a, b = b, a
+		}
+		if b.IsConst() && b.C == 0 {
+			if _, ok := ubound(a); ok {
+				switch a.Op {
+				case OAdd:
+					return ts.And(ts.Eq(a.Args[0], b), ts.Eq(a.Args[1], b))
+				case OMul:
+					if a.Args[1].IsConst() && a.Args[1].C != 0 {
+						return ts.Eq(a.Args[0], b)
+					}
+					if a.Args[0].IsConst() && a.Args[0].C != 0 {
+						return ts.Eq(a.Args[1], b)
+					}
+				}
+			}
+		}
+	}
 	if a.ID > b.ID {
 		a, b = b, a
 	}
@@ -531,6 +553,25 @@ func (ts *TermStore) Cmp(op Op, a, b *Term) *Term {
 	}
 	if a == b {
 		return ts.Bool(op == OULe || op == OSLe)
+	}
+	// interval reasoning on sums/products of small non-negative quantities
+	if w == 64 {
+		if ua, ok := ubound(a); ok && b.IsConst() && b.C < 1<<63 {
+			if (op == OULt || op == OSLt) && ua < b.C {
+				return ts.tTrue
+			}
+			if (op == OULe || op == OSLe) && ua <= b.C {
+				return ts.tTrue
+			}
+		}
+		if ub, ok := ubound(b); ok && a.IsConst() && a.C < 1<<63 {
+			if (op == OULt || op == OSLt) && a.C >= ub {
+				return ts.tFals
+			}
+			if (op == OULe || op == OSLe) && a.C > ub {
+				return ts.tFals
+			}
+		}
 	}
 	if a.Op == OVar && a.Dom != nil && b.IsConst() {
 		if r, ok := domCmp(op, a.Dom, b.C, w, false); ok {
@@ -912,4 +953,44 @@ func domCmp(op Op, d []uint64, c uint64, w int, swapped bool) (bool, bool) {
 		}
 	}
 	return res, !first
+}
+
+// ubound: an upper bound of a 64-bit term built from zero-extended narrow values,
+// constants, additions and multiplications, valid (no wrap-around) while below 2^63.
+func ubound(t *Term) (uint64, bool) {
+	const lim = uint64(1) << 62
+	switch t.Op {
+	case OConst:
+		if t.C < lim {
+			return t.C, true
+		}
+	case OZExt:
+		iw := t.Args[0].S.W
+		if iw <= 16 {
+			in := t.Args[0]
+			if in.Op == OVar && in.Dom != nil {
+				var m uint64
+				for _, v := range in.Dom {
+					if v > m {
+						m = v
+					}
+				}
+				return m, true
+			}
+			return mask(iw), true
+		}
+	case OAdd:
+		a, ok1 := ubound(t.Args[0])
+		b, ok2 := ubound(t.Args[1])
+		if ok1 && ok2 && a+b < lim {
+			return a + b, true
+		}
+	case OMul:
+		a, ok1 := ubound(t.Args[0])
+		b, ok2 := ubound(t.Args[1])
+		if ok1 && ok2 && (a == 0 || b < lim/(a+1)) {
+			return a * b, true
+		}
+	}
+	return 0, false
 }
